@@ -10,6 +10,7 @@ s=open('/repo/'+f).read()
 n=len(re.findall(old,s))
 if n!=1:
     print("pattern matches",n,"times"); sys.exit(1)
+new=new.encode().decode('unicode_escape')
 s=re.sub(old,lambda m:new,s,count=1)
 open('/repo/'+f,'w').write(s)
 PY
